@@ -1210,9 +1210,10 @@ def translate_script(repo):
 
 class ImplTranslator:
     """A command-line `*_impl(settings)` function as a decision tree (stree, Model/SrcPrelude.v) whose
-    inner nodes are the tests it makes on its settings (`x is None`, `x is not None`, `x == "lit"`) and
+    inner nodes are the tests it makes on its settings (`x is None`, `x is not None`, `x == "lit"`, `if x:`) and
     whose leaves are the calls made on that path, in order, with symbolic arguments: settings.a is
-    SAttr "a" (SName "settings"), Cls(p, k=v) is SNewP "Cls" [p] [("k", v)], a name imported inside the
+    SAttr "a" (SName "settings"), Cls(p, k=v) is SNewP "Cls" [p] [("k", v)], r.m(p, k=v) is SCallA "m" r [p]
+    [("k", v)] as a value and the event SMethod r "m" [p] [("k", v)] as a statement, a name imported inside the
     function is SName, None / strings / booleans / integers are SNoneV / SStr / SB / SZ; a local
     assigned on a path has the value assigned on that path.  die(...) ends a path (TDie), a bare return
     or the end of the body ends it normally (TDone).  Imports and print calls are dropped.  Anything
@@ -1260,6 +1261,10 @@ class ImplTranslator:
             pos = "; ".join(self.sval(a, env) for a in e.args)
             kws = "; ".join(f"({self.lit(k.arg)}, {self.sval(k.value, env)})" for k in e.keywords)
             return f"(SNewP {self.lit(e.func.id)} [{pos}] [{kws}])"
+        if isinstance(e, ast.Call) and isinstance(e.func, ast.Attribute):          # recv.m(args)
+            pos = "; ".join(self.sval(a, env) for a in e.args)
+            kws = "; ".join(f"({self.lit(k.arg)}, {self.sval(k.value, env)})" for k in e.keywords)
+            return f"(SCallA {self.lit(e.func.attr)} {self.sval(e.func.value, env)} [{pos}] [{kws}])"
         self.fail(e, "value outside the subset")
 
     def run_block(self, stmts, env, calls):
@@ -1283,6 +1288,12 @@ class ImplTranslator:
             pos = "; ".join(self.sval(a, env) for a in s.value.args)
             kws = "; ".join(f"({self.lit(k.arg)}, {self.sval(k.value, env)})" for k in s.value.keywords)
             return self.run_block(rest, env, calls + [f"(SCall {self.lit(fn)} [{pos}] [{kws}])"])
+        if isinstance(s, ast.Expr) and isinstance(s.value, ast.Call) and isinstance(s.value.func, ast.Attribute):
+            c = s.value
+            pos = "; ".join(self.sval(a, env) for a in c.args)
+            kws = "; ".join(f"({self.lit(k.arg)}, {self.sval(k.value, env)})" for k in c.keywords)
+            ev = f"(SMethod {self.sval(c.func.value, env)} {self.lit(c.func.attr)} [{pos}] [{kws}])"
+            return self.run_block(rest, env, calls + [ev])
         if isinstance(s, ast.Assign) and len(s.targets) == 1 and isinstance(s.targets[0], ast.Name):
             env2 = dict(env)
             env2[s.targets[0].id] = self.sval(s.value, env)
@@ -1290,6 +1301,8 @@ class ImplTranslator:
         if isinstance(s, ast.If):
             t = s.test
             yes, no = list(s.body) + rest, list(s.orelse) + rest
+            if isinstance(t, ast.Attribute):                                        # `if settings.flag:`
+                return f"(TIfTrue {self.sval(t, env)} {self.run_block(yes, env, calls)} {self.run_block(no, env, calls)})"
             if isinstance(t, ast.Compare) and len(t.ops) == 1 and isinstance(t.comparators[0], ast.Constant):
                 v = self.sval(t.left, env)
                 c = t.comparators[0].value
@@ -1334,9 +1347,20 @@ def translate_cli_transform(repo):
     return translate_cli(repo, ["transform_impl"])
 
 
+def translate_cli_allsky(repo):
+    """Gallina text for cli.tile_allsky_impl (raises Unsupported)"""
+    return translate_cli(repo, ["tile_allsky_impl"])
+
+
+def translate_cli_multi_tan(repo):
+    """Gallina text for cli.tile_multi_tan_impl (raises Unsupported)"""
+    return translate_cli(repo, ["tile_multi_tan_impl"])
+
+
 if __name__ == "__main__":
     import sys
     which = sys.argv[2] if len(sys.argv) > 2 else "pyramid"
     fn = {"pyramid": translate_pyramid, "study": translate_study, "paths": translate_paths, "script": translate_script,
-          "cli_cascade": translate_cli_cascade, "cli_transform": translate_cli_transform}[which]
+          "cli_cascade": translate_cli_cascade, "cli_transform": translate_cli_transform,
+          "cli_allsky": translate_cli_allsky, "cli_multi_tan": translate_cli_multi_tan}[which]
     sys.stdout.write(fn(sys.argv[1] if len(sys.argv) > 1 else "/repo"))
